@@ -76,6 +76,10 @@ pub struct Profile {
     /// probability of a type-dimension variant (children or values without
     /// drop glue) for a flat top-level combinator
     pub p_variant: u32,
+    /// nesting: a child at a depth below this may itself be a combinator
+    /// (1 = one level of nesting, 2 = a combinator inside a combinator inside
+    /// the top-level one)
+    pub max_depth: usize,
 }
 
 pub const ALL_FAMILIES: &[(Family, u32)] = &[
@@ -113,6 +117,7 @@ impl Profile {
             sib_wakes: true,
             p_post: 0,
             p_variant: 26,
+            max_depth: 2,
         }
     }
     pub fn only(mut self, fams: &[Family]) -> Profile {
@@ -223,7 +228,7 @@ fn gen_children(c: &mut Cur, p: &Profile, fam: Family, n: usize, depth: usize, n
     }
     (0..n)
         .map(|_| {
-            if depth == 0 && *nests_left > 0 && n <= 12 && c.coin(p.p_nest) {
+            if depth < p.max_depth && *nests_left > 0 && n <= 12 && c.coin(if depth == 0 { p.p_nest } else { p.p_nest * 2 / 3 }) {
                 *nests_left -= 1;
                 let f = c.weighted(&inner_families(flavor));
                 ChildSpec::Inner(gen_comb(c, p, f, depth + 1, nests_left))
@@ -238,7 +243,7 @@ pub fn gen_comb(c: &mut Cur, p: &Profile, fam: Family, depth: usize, nests_left:
     match fam {
         Family::WaitF | Family::WaitS => {
             let inner_fl = if fam == Family::WaitF { Flavor::F } else { Flavor::S };
-            let inner = if depth == 0 && *nests_left > 0 && c.coin(p.p_nest) {
+            let inner = if depth < p.max_depth && *nests_left > 0 && c.coin(p.p_nest) {
                 *nests_left -= 1;
                 let f = c.weighted(&inner_families(inner_fl));
                 // keep Result-flavoured futures out of wait_until (plain futures only)
@@ -287,7 +292,7 @@ pub fn gen_comb(c: &mut Cur, p: &Profile, fam: Family, depth: usize, nests_left:
                 }
             };
             if depth > 0 {
-                n = n.min(4);
+                n = n.min(if depth == 1 { 4 } else { 3 });
                 if container == Container::Array && !crate::construct::ARRAY_LENS.contains(&n) {
                     n = 4;
                 }
@@ -347,7 +352,7 @@ pub fn gen_case(bytes: &[u8], p: &Profile) -> Case {
         .filter(|(f, _)| cfg!(feature = "has-alloc") || !matches!(f, Family::FutGroup | Family::StrGroup))
         .collect();
     let fam = c.weighted(&fams);
-    let mut nests = 2usize;
+    let mut nests = 3usize;
     let mut root = gen_comb(&mut c, p, fam, 0, &mut nests);
     // the type dimension (flat combinators only: every child a leaf)
     let flat = root.children.iter().all(|ch| matches!(ch, ChildSpec::Leaf(_)));
